@@ -13,8 +13,9 @@ TECHNIQUE = "runtime monitoring: row/ledger monitor with a date-based reference 
 ANCHORS = ["solution/check_groundwater_table.py", "solution/capillary_rise.py",
            "solution/groundwater_inflow.py", "initialize/read_groundwater_table.py",
            "initialize/read_model_initial_conditions.py"]
-RULE = ("every built-in soil + custom soils (incl. 4-decimal hydraulic values), tables 0.2-50 m, "
-        "constant and varying across the profile bottom and the root zone, deepened profiles, dry and "
+RULE = ("every built-in soil + custom soils (incl. 4-decimal hydraulic values), tables 0.04-50 m, "
+        "constant and varying (observation records longer than the window; the same GroundWater object "
+        "handed to a second model over a later window) across the profile bottom and the root zone, deepened profiles, dry and "
         "saturated starts, all strategies; plus configurations without a table, and pairs "
         "(no table, constant table 10-50 m below the profile); non-trivial = >= 30 executed table "
         "days (or a completed pair); distinct = spec digest")
@@ -50,12 +51,12 @@ def cases(tier, seed):
             sp = gen.config(rng, p_gw=0.0, seasons=(1, 2), p_custom=0.3, hostile=True)
             out.append({"spec": sp})
             continue
-        depths = [(0.2, 0.4, 0.6, 0.9), (1.0, 1.3, 1.6, 2.0), (2.5, 3.5, 5.0), (0.3, 0.8, 1.5, 2.5, 6.0, 30.0)][cls]
+        depths = [(0.04, 0.2, 0.4, 0.6, 0.9), (1.0, 1.3, 1.6, 2.0), (2.5, 3.5, 5.0), (0.3, 0.8, 1.5, 2.5, 6.0, 30.0)][cls]
         kw = dict(p_gw=1.0, gw_depths=depths, seasons=(1, 2), p_custom=0.4, wet=(i % 4 == 0), dry=(i % 4 == 1))
         if i % 10 == 7:
             kw.update(crops=["Maize", "Cotton", "Sunflower", "AlfalfaGDD", "Sorghum"])  # deepened profiles
         sp = gen.config(rng, **kw)
-        out.append({"spec": sp})
+        out.append({"spec": sp, "shift": int(rng.integers(15, 150))})
     return out
 
 
@@ -162,6 +163,30 @@ def run_case(case):
     res = sim.run(spec, opts=dict(ledger=True, irr=False, cr_detail=spec.get("gw") is not None))
     nt = monitor(spec, res, acc) if res.trace.steps else False
     extra = {}
+    gw = spec.get("gw")
+    if (gw is not None and len(gw["dates"]) > 1 and res.status == "ok" and case.get("shift")
+            and spec["weather"].get("kind") != "file"):
+        # the user's GroundWater object handed to a second model over a window of the same length
+        # that starts later: its table must follow the observations by date as well
+        sp2 = copy.deepcopy(spec)
+        k = int(case["shift"])
+        sp2["start"] = S.ds(S.d(spec["start"]) + dt.timedelta(days=k))
+        sp2["end"] = S.ds(S.d(spec["end"]) + dt.timedelta(days=k))
+        if True:
+            kw2 = S.build(sp2)
+            kw2["groundwater"] = res.kw["groundwater"]
+            res2 = sim.run(sp2, kw=kw2, opts=dict(ledger=True, irr=False, cr_detail=True))
+            acc.cov["executions"] += 1
+            if res2.trace.steps:
+                acc2 = base.Acc(sp2)
+                monitor(sp2, res2, acc2)
+                acc.cov["shifted_window_reuse_runs"] += 1
+                for kk, v in acc2.cov.items():
+                    acc.cov[kk] += v
+                for v in acc2.v:
+                    v["msg"] = f"second model given the same GroundWater object, window moved by {k} days: " + v.get("msg", "")
+                    acc.v.append(v)
+                acc.total += acc2.total
     if case.get("pair") is not None and res.status == "ok":
         sp2 = copy.deepcopy(spec)
         depth = round(float(np.sum(res.trace.dz0)) + case["pair"], 2)
